@@ -8,9 +8,13 @@
 (*        "dataNoSession" (secured, for a session the device does not have *)
 (*        (any more)), "unsecStatus" (an unsecured status report that      *)
 (*        belongs to no session or exchange)                               *)
-(*  AppRx(x, s, ex, ts, tag, t)  handler x, on the exchange it accepted    *)
-(*        (session s, id ex), received a message that was sent on session  *)
-(*        ts, exchange tag                                                 *)
+(*  DevInit(s, e)  the device's own application opened exchange e on       *)
+(*        session s (the device is its initiator) and sent a message on it *)
+(*  AppRx(x, role, minit, s, ex, ts, tag, t)  handler x on the exchange it *)
+(*        accepted (role "rsp") - or the device's own application on the   *)
+(*        exchange it initiated (role "ini") -, session s, id ex, received *)
+(*        a message that was sent on session ts, exchange tag, with        *)
+(*        (minit) or without the initiator flag                            *)
 (*  Tx(kind, s, e, secured, gone, t) the device sent: "sack" stand-alone   *)
 (*        ack (gone = sessions the device has removed by then),            *)
 (*        "reply", "status" (status report), "close" (CloseSession),       *)
@@ -23,7 +27,8 @@
 EXTENDS Integers, FiniteSets, Sequences
 CONSTANT TRecover       \* ms within which a fresh request must be answered after the disturbance
 
-Fresh == [opened |-> {},            \* <<session, exchange id>> for which a secured initiator message arrived
+Fresh == [devInit |-> {},           \* <<session, exchange id>> of the exchanges the device itself initiated
+          opened |-> {},            \* <<session, exchange id>> for which a secured initiator message arrived
           relOwed |-> {},           \* <<session, exchange id>> on which some message asked for an acknowledgement
           noSess |-> 0,             \* secured datagrams for a session the device never had
           inj |-> [x \in 1..4 |-> 0], \* secured datagrams injected per session
@@ -40,7 +45,14 @@ AfterInj(kind, ss, e, init, rel, t, s) ==
 
 \* RightExchangeOnly + OpensOnlyIfAllowed: the message was sent on exactly this session and exchange, and that exchange
 \* was opened by an initiator message
-AppRxOk(x, ss, ex, ts, tag, t, s) == ts = ss /\ tag = ex /\ <<ss, ex>> \in s.opened
+\* ... and the role: a message with the initiator flag belongs to an exchange the peer opened (we are its responder),
+\* one without it to an exchange we opened - the same id may be in use in both roles on one session
+AppRxOk(x, role, minit, ss, ex, ts, tag, t, s) ==
+  /\ ts = ss /\ tag = ex
+  /\ IF role = "rsp" THEN <<ss, ex>> \in s.opened /\ minit
+     ELSE <<ss, ex>> \in s.devInit /\ ~minit
+DevInitOk(ss, e, s) == TRUE
+AfterDevInit(ss, e, s) == [s EXCEPT !.devInit = @ \cup {<<ss, e>>}]
 \* UnknownAnswersDropped: on an exchange no initiator message opened, the device sends nothing but the stand-alone
 \* ack a reliable message asked for (or its own CloseSession); an unsecured status report that belongs to nothing is never
 \* answered; the (unsecured) SessionNotFound answer is only for a secured message that found no session
@@ -49,7 +61,8 @@ SumOver(f, S) == IF S = {} THEN 0 ELSE LET x == CHOOSE y \in S : TRUE IN f[x] + 
 \* the (unsecured) SessionNotFound answer: at most one per secured datagram that found no session - one for a session the
 \* device never had, or one that was still waiting to be read when the device removed its session
 TxOk(kind, ss, e, secured, gone, t, s) ==
-  /\ (secured /\ <<ss, e>> \notin s.opened /\ e # 900) => ((kind = "sack" /\ <<ss, e>> \in s.relOwed) \/ kind = "close")
+  /\ (secured /\ <<ss, e>> \notin s.opened /\ e # 900) => ((kind = "sack" /\ <<ss, e>> \in s.relOwed) \/ kind = "close" \/ (kind = "own" /\ <<ss, e>> \in s.devInit))
+  /\ kind = "own" => <<ss, e>> \in s.devInit
   /\ (~secured) => (kind = "status" /\ s.statusSent < s.noSess + SumOver(s.inj, gone \cap (1..4)))
 AfterTx(kind, ss, e, secured, gone, t, s) ==
   IF ~secured THEN [s EXCEPT !.statusSent = @ + 1]
